@@ -154,8 +154,7 @@ def guarded(case):
     try:
         return (storage_history if case['kind'] == 'dir' else stack_case)(case)
     except BaseException as e:  # pylint: disable=broad-except
-        import traceback
-        return 'harness: %r %s' % (e, traceback.format_exc()[-600:])
+        return 'harness:' + common.describe_exc(e)
 
 
 def replay(case):
@@ -198,7 +197,7 @@ def run(chk):
         results = pool.map(guarded, cases, chunksize=1)
     for case, v in zip(cases, results):
         if v and v.startswith('harness:'):
-            raise common.Infra(v)
+            common.raise_for(v[len('harness:'):])
         chk.case(repr(case), True, {k: case[k] for k in case if k not in ('seed',)} if len(chk.samples) < 6 else None)
         chk.count('kind:' + case['kind'])
         if case['kind'] == 'stack':
